@@ -338,19 +338,20 @@ class ContCase:
         self.vinit = rng.choice([0, 0, 1, 5, 16, 17]) if arena else 0
         self.binit = rng.choice([0, 1, 16, 100, 1 << 10, 1 << 13])
         self.lines = ["CONT %d %d %d" % (arena, self.vinit, self.binit)]
-        self.vtoks, self.btoks = [], []
-        self.which = []            # per op: ("v"| "b", expectation)
-        self.vec, self.buf = [], bytearray()
+        self.vtoks, self.btoks, self.wtoks = [], [], []
+        self.which = []            # per op: ("v" | "w" | "b", expectation)
+        self.vec, self.buf, self.wvec = [], bytearray(), []
         self.kinds = {}
         for _ in range(nops):
             self.op()
         self.emit("v", "vec-dump", "VD", "D", ("items", list(self.vec)))
+        self.emit("w", "vec-dump", "WD", "D", ("items", list(self.wvec)))
         self.emit("b", "buf-dump", "BG", "G", ("bytes", bytes(self.buf)))
 
     def emit(self, w, kind, line, tok, exp):
         self.kinds[kind] = self.kinds.get(kind, 0) + 1
         self.lines.append(line)
-        (self.vtoks if w == "v" else self.btoks).append(tok)
+        {"v": self.vtoks, "w": self.wtoks, "b": self.btoks}[w].append(tok)
         self.which.append((w, exp))
 
     def blob(self):
@@ -367,35 +368,37 @@ class ContCase:
         rng = self.rng
         if rng.random() < 0.45:
             r = rng.random()
-            v = self.vec
+            # the word vector or the one with 24-byte elements
+            W, P = ("v", "V") if rng.random() < 0.6 else ("w", "W")
+            v = self.vec if W == "v" else self.wvec
             if r < 0.45:
                 x = rng.choice([0, 1, 2 ** 64 - 1, rng.randrange(2 ** 64), rng.randrange(100)])
-                self.emit("v", "alloc", "VA %d" % x, "A:%d" % x, ("slot", (len(v), x)))
+                self.emit(W, "alloc", "%sA %d" % (P, x), "A:%d" % x, ("slot", (len(v), x)))
                 v.append(x)
             elif r < 0.52:
-                self.emit("v", "calloc", "VC", "C", ("slot", (len(v), 0)))
+                self.emit(W, "calloc", P + "C", "C", ("slot", (len(v), 0)))
                 v.append(0)
             elif r < 0.64:
-                self.emit("v", "pop", "VP", "P", ("slot", (len(v) - 1, v[-1]) if v else None))
+                self.emit(W, "pop", P + "P", "P", ("slot", (len(v) - 1, v[-1]) if v else None))
                 if v:
                     v.pop()
             elif r < 0.76:
                 n = rng.choice([0, 1, 2, 5, 15, 16, 17, 31, 32, 33, 40, 100, 1000, 2 * len(v) + 40, 3 * len(v) + 1])
-                self.emit("v", "reserve", "VR %d" % n, "R:%d" % n, ("status", 0))
+                self.emit(W, "reserve", "%sR %d" % (P, n), "R:%d" % n, ("status", 0))
             elif r < 0.82:
-                self.emit("v", "sort", "VS", "S", None)
+                self.emit(W, "sort", P + "S", "S", None)
                 v.sort()
             elif r < 0.84:
-                self.emit("v", "clear", "VX", "X", None)
+                self.emit(W, "clear", P + "X", "X", None)
                 del v[:]
             elif r < 0.89:
-                self.emit("v", "first", "VF", "F", ("slot", (0, v[0]) if v else None))
+                self.emit(W, "first", P + "F", "F", ("slot", (0, v[0]) if v else None))
             elif r < 0.94:
-                self.emit("v", "last", "VL", "L", ("slot", (len(v) - 1, v[-1]) if v else None))
+                self.emit(W, "last", P + "L", "L", ("slot", (len(v) - 1, v[-1]) if v else None))
             elif r < 0.97:
-                self.emit("v", "length", "VN", "N", ("len", len(v)))
+                self.emit(W, "length", P + "N", "N", ("len", len(v)))
             else:
-                self.emit("v", "vec-dump", "VD", "D", ("items", list(v)))
+                self.emit(W, "vec-dump", P + "D", "D", ("items", list(v)))
             return
         r = rng.random()
         b = self.buf
@@ -496,7 +499,7 @@ def check_expect(exp, body):
 def cont_part(ctx, exe):
     rng = ctx.rng
     rc, out, _ = run_harness(exe, [])
-    hdr, stride = [int(x) for x in out[0].split()[1:3]]
+    hdr, stride, stride2 = [int(x) for x in out[0].split()[1:4]]
     kinds, vreqs, breqs, vwants, bwants, vinfos, binfos = {}, [], [], [], [], [], []
     ncase = ctx.n(60, 3000)
     nops = 0
@@ -520,10 +523,10 @@ def cont_part(ctx, exe):
         if len(res) != len(c.which):
             ctx.disagreement("vector/buffer harness answered %d lines for %d operations" % (len(res), len(c.which)), info)
             continue
-        vres, bres = [], []
+        vres, bres, wres = [], [], []
         prev_siz = {}
         for i, (l, (w, exp)) in enumerate(zip(res, c.which)):
-            (vres if w == "v" else bres).append(l)
+            {"v": vres, "w": wres, "b": bres}[w].append(l)
             siz = l.rsplit(":", 1)[1]
             if prev_siz.get(w) not in (None, siz):
                 reallocs += 1
@@ -532,10 +535,13 @@ def cont_part(ctx, exe):
                 bad = check_expect(exp, l.split(" #")[0])
                 if bad:
                     ctx.violation("libks %s (%s backed), operation %d `%s`: %s" % (
-                        "vector" if w == "v" else "buffer", "arena" if c.arena else "malloc", i, c.lines[i + 1][:80], bad), dict(info, at=i))
+                        {"v": "vector", "w": "vector of 24-byte elements", "b": "buffer"}[w], "arena" if c.arena else "malloc", i, c.lines[i + 1][:80], bad), dict(info, at=i))
                     break
         vreqs.append("vec %d %d %d %s" % (hdr, stride, c.vinit, ",".join(c.vtoks)))
         vwants.append(vres)
+        vinfos.append(info)
+        vreqs.append("vec %d %d %d %s" % (hdr, stride2, c.vinit, ",".join(c.wtoks)))
+        vwants.append(wres)
         vinfos.append(info)
         breqs.append("buf %d %s" % (c.binit, ",".join(c.btoks)))
         bwants.append(bres)
